@@ -10,10 +10,17 @@ R1  sum over sources (T-AGREE): sum_total_emissions ranges over the whole
 R2  fuel for exactly those components (T-PAIR): the components whose
     `.emissions` are summed are exactly those whose `.fuel_burn` enters
     total_fuel_burn, each added in the control region of its computation.
-R3  amount = EI × component fuel (T-PAIR + def-use): per producer, every store
-    into the emissions map is `indices[k] * F` in a loop over the indices' own
-    keys, the returned fuel_burn derives from the same F (sum / slice-sum), and
-    zeroing stores come as index/emission twins over one slice value.
+R3  amount = EI × component fuel (T-PAIR + def-use): per producer, every place
+    that fills the emissions map under a variable key stores a product whose
+    factors are the index map's element at that key and the component fuel F,
+    for a key that walks the index map's own keys with nothing (guard, filter,
+    continue/break) that lets a key go without an amount.  The element may be
+    spelt `indices[k]`, the value variable of `for k, v in indices.items()`,
+    or a local standing for either; the loop may be a statement or a dict
+    comprehension passed to `.update` / the constructor.  The returned
+    fuel_burn derives from the same F (sum / slice-sum), and zeroing stores
+    into elements of the two maps (however the element is reached) come as
+    index/emission twins over one slice value.
 R4  windows complementary (T-AGREE, finite): for every member of
     ClimbDescentMode exactly one of "trajectory excludes climb/descent" and
     "LTO keeps approach/climb fuel" holds; LTO zeroes exactly approach and
@@ -23,6 +30,10 @@ R5  speciation identities (T-ALG): NO + NO2 + HONO ≡ 100 % per thrust class as
     three fractions at one thrust mode; SOx = SO2 + SO4 wherever both are set;
     BFFM2 multiplies one NOx index by three proportion arrays indexed by one
     category array.
+R6  memoised mutables: a local bound from a call of a functools.cache'd function
+    of the emissions package is not stored into in place unless it was rebound
+    to a copy first (the generic form, including results kept in containers
+    and aliases, is T-MEMO M2).
 Not decided: finiteness, sign, float rounding, numeric content of any EI.
 """
 
@@ -32,8 +43,8 @@ import ast
 from fractions import Fraction
 
 from ..algebra import AlgebraError, normal_form, poly_equal
-from ..astutil import (ancestors, call_name, calls_in, eval_pred, guards_of, kwarg, norm,
-                       single_def_value, stmt_of, stores_to, walk_no_nested)
+from ..astutil import (ancestors, call_name, calls_in, enclosing_iterations, eval_pred, guards_of, kwarg, map_iteration,
+                       norm, single_def_value, stmt_of, stores_to, walk_no_nested)
 from ..conform import _inline_env
 
 EM = 'emissions/emission.py'
@@ -187,23 +198,128 @@ def rule_fuel(ctx):
     ctx.ob('C01-R3', ce, 'trajectory producer receives that per-segment fuel', ok, 'third argument' if ok else 'a different fuel array is passed', nontrivial=False)
 
 
+def _stands_for(fn, e):
+    """e, then what it stands for through single-definition locals (outermost first)"""
+    out, seen = [e], set()
+    while isinstance(e, ast.Name) and e.id not in seen:
+        seen.add(e.id)
+        v = single_def_value(fn, e.id)
+        if v is None:
+            break
+        out.append(v)
+        e = v
+    return out
+
+
+def _writes_map(owner, m, before):
+    """a statement of `owner` that stores into mapping m (element store / update / setdefault) above line `before`"""
+    for t, st, how in stores_to(owner):
+        if isinstance(t, ast.Subscript) and norm(t.value) == m and st.lineno < before:
+            return st
+    for c in calls_in(owner):
+        if isinstance(c.func, ast.Attribute) and norm(c.func.value) == m and c.func.attr in ('update', 'setdefault', 'pop', 'clear') \
+                and c.lineno < before:
+            return stmt_of(c)
+    return None
+
+
+def _element_of(fn, e, at):
+    """(mapping text, key text or None) when expression e, evaluated at node `at`, is an element of a mapping:
+    `m[k]`; the value variable of a governing `for k, v in m.items()` / `for v in m.values()` (as long as the loop
+    has not stored into m before `at`, which would make the variable stale); or a single-definition local that
+    stands for one of those.  None otherwise."""
+    for x in _stands_for(fn, e):
+        if isinstance(x, ast.Subscript) and isinstance(x.value, (ast.Name, ast.Attribute)):
+            return norm(x.value), norm(x.slice)
+        if isinstance(x, ast.Name):
+            for owner, tgt, it in enclosing_iterations(at):
+                mi = map_iteration(tgt, it)
+                if mi and mi[2] == x.id:
+                    if isinstance(owner, ast.For) and _writes_map(owner, mi[0], getattr(at, 'lineno', 0)) is not None:
+                        return None
+                    return mi[0], mi[1]
+    return None
+
+
+def _product_operands(fn, v):
+    """the two factors when v (through single-definition locals) is a product `a * b` / np.multiply(a, b)"""
+    for x in _stands_for(fn, v):
+        if isinstance(x, ast.BinOp):
+            return (x.left, x.right) if isinstance(x.op, ast.Mult) else ()
+        if isinstance(x, ast.Call) and call_name(x) in ('np.multiply', 'numpy.multiply') and len(x.args) == 2 and not x.keywords:
+            return x.args[0], x.args[1]
+    return None
+
+
+def _amount_sites(fn, emis):
+    """every place where amounts are put into the map `emis` under a *variable* key:
+    (key expr, value expr, node whose context decides loops and guards, statement)"""
+    out = []
+    for t, s, how in stores_to(fn):
+        if isinstance(t, ast.Subscript) and norm(t.value) == emis and isinstance(t.slice, ast.Name) and how in ('assign', 'ann') \
+                and not (isinstance(s.value, ast.Constant)):
+            out.append((t.slice, s.value, s, s))
+    for c in calls_in(fn):
+        comp = None
+        if isinstance(c.func, ast.Attribute) and c.func.attr == 'update' and norm(c.func.value) == emis and len(c.args) == 1:
+            comp = c.args[0]
+        else:
+            st = stmt_of(c)
+            if isinstance(st, (ast.Assign, ast.AnnAssign)) and st.value is c and len(c.args) == 1 \
+                    and any(isinstance(t, ast.Name) and t.id == emis for t in (st.targets if isinstance(st, ast.Assign) else [st.target])):
+                comp = c.args[0]
+        if isinstance(comp, ast.DictComp):
+            out.append((comp.key, comp.value, comp.value, stmt_of(c)))
+    for st in walk_no_nested(fn):
+        if isinstance(st, ast.Assign) and isinstance(st.value, ast.DictComp) \
+                and any(isinstance(t, ast.Name) and t.id == emis for t in st.targets):
+            out.append((st.value.key, st.value.value, st.value.value, st))
+    return sorted(out, key=lambda r: r[3].lineno)
+
+
 def _producer(ctx, fi, emis, idx, fuel_var, ret_fuel_ok):
+    """amount = emission index × component fuel, for every key of the index map.  Decided on content: the key ranges
+    over the index map's own keys (`for k in idx` / `.keys()` / `for k, v in idx.items()` / a dict comprehension over
+    any of those), the stored value is a product whose factors are the index map's element at that key (as
+    `idx[k]`, the `.items()` value variable, or a local standing for either) and the component's fuel, and nothing
+    (guard, comprehension filter, continue/break) lets a key of the index map go without an amount."""
     fn = fi.node
-    stores = [(t, s) for t, s, how in stores_to(fn) if isinstance(t, ast.Subscript) and norm(t.value) == emis]
-    mult = [s for t, s in stores if isinstance(t.slice, ast.Name) and isinstance(getattr(s, 'value', None), ast.BinOp)]
-    ok = len(mult) == 1
-    if ok:
-        s = mult[0]
-        k = norm(s.targets[0].slice)
-        v = s.value
-        ok = isinstance(v.op, ast.Mult) and {norm(v.left), norm(v.right)} == {f'{idx}[{k}]', fuel_var}
-        lp = next((a for a in ancestors(s) if isinstance(a, ast.For)), None)
-        ok = ok and lp is not None and norm(lp.target) == k and norm(lp.iter) in (f'{idx}.keys()', idx) and not guards_of(s, stop=lp)
-    ctx.ob('C01-R3', fi, f'{emis}[k] = {idx}[k] * {fuel_var} over the keys of {idx}', ok,
-           'amount = emission index × component fuel for every species of the index map' if ok else
-           'amounts are not formed as index × component fuel over all keys of the index map',
-           line=(mult[0].lineno if mult else fn.lineno))
-    others = [s for t, s in stores if s not in mult]
+    label = f'{emis}[k] = {idx}[k] * {fuel_var} over the keys of {idx}'
+    sites = _amount_sites(fn, emis)
+    if not sites:
+        ctx.undecided('C01-R3', fi, label, f'no statement that fills `{emis}` under a variable key was recognised')
+    mult = []
+    for key, val, at, st in sites:
+        ops = _product_operands(fn, val)
+        if ops is None:
+            ctx.undecided('C01-R3', fi, label, f'`{norm(val)[:60]}` at line {st.lineno} is not recognisably a product')
+        why = None
+        it = next(((o, mi) for o, tg, itx in enclosing_iterations(at)
+                   for mi in [map_iteration(tg, itx)] if mi and mi[1] == key.id), None) if isinstance(key, ast.Name) else None
+        if it is None:
+            why = f'the key `{norm(key)}` of line {st.lineno} does not range over the keys of a map'
+        elif it[1][0] != idx:
+            why = f'the amounts are formed for the keys of `{it[1][0]}`, not for the keys of the index map `{idx}`'
+        elif len(ops) != 2:
+            why = f'`{norm(val)[:60]}` is not a product'
+        else:
+            is_fuel = [any(isinstance(x, ast.Name) and x.id == fuel_var for x in _stands_for(fn, o)) for o in ops]
+            is_elem = [_element_of(fn, o, at) == (idx, key.id) for o in ops]
+            if not ((is_fuel[0] and is_elem[1]) or (is_fuel[1] and is_elem[0])):
+                why = (f'`{norm(val)[:60]}` is not (index of that species) × `{fuel_var}`: factors '
+                       f'{[norm(o)[:30] for o in ops]}')
+        if why is None:
+            owner = it[0]
+            if guards_of(at, stop=owner):
+                why = f'the amount is formed only under `{norm(guards_of(at, stop=owner)[0][0])[:50]}`: some species of the index map get no amount'
+            elif isinstance(owner, ast.For) and any(isinstance(x, (ast.Continue, ast.Break)) and x.lineno < st.lineno for x in walk_no_nested(owner)):
+                why = 'the loop can skip a key (continue/break) before its amount is formed'
+        if why is None:
+            mult.append(st)
+        ctx.ob('C01-R3', fi, label, why is None,
+               'amount = emission index × component fuel for every species of the index map' if why is None else
+               f'amounts are not formed as index × component fuel over all keys of the index map: {why}', line=st.lineno)
+    others = [s for t, s, how in stores_to(fn) if isinstance(t, ast.Subscript) and norm(t.value) == emis and s not in mult]
     return mult, others
 
 
@@ -212,11 +328,17 @@ def rule_amounts(ctx):
     # trajectory
     tf = prog.func(TR, 'get_trajectory_emissions')
     mult, others = _producer(ctx, tf, 'emissions', 'indices', 'fuel_burn_per_segment', None)
-    zero = [(t, s) for t, s, how in stores_to(tf.node) if isinstance(t, ast.Subscript) and isinstance(t.value, ast.Subscript)
-            and norm(t.value.value) in ('indices', 'emissions') and isinstance(getattr(s, 'value', None), ast.Constant)]
+    # window masking: constant stores into a slice of an *element* of the index / amount map, however the element is
+    # reached (`m[k][a:b]`, the value variable of `for k, v in m.items()` / `m.values()`, or a local standing for it)
+    zero = []
+    for t, s, how in stores_to(tf.node):
+        if isinstance(t, ast.Subscript) and isinstance(getattr(s, 'value', None), ast.Constant):
+            el = _element_of(tf.node, t.value, s)
+            if el is not None and el[0] in ('indices', 'emissions'):
+                zero.append((t, s, el[0]))
     by_slice = {}
-    for t, s in zero:
-        by_slice.setdefault(norm(t.slice), set()).add(norm(t.value.value))
+    for t, s, which in zero:
+        by_slice.setdefault(norm(t.slice), set()).add(which)
         if s.value.value != 0.0:
             ctx.ob('C01-R3', tf, norm(s), False, 'window masking writes a non-zero constant', line=s.lineno)
     for sl, who in sorted(by_slice.items()):
